@@ -72,7 +72,7 @@ type ruleGen struct {
 
 func (g *ruleGen) fresh(typ byte) string {
 	g.nvar++
-	prefix := map[byte]string{'n': "N", 'a': "A", 'p': "P", 'l': "L"}[typ]
+	prefix := map[byte]string{'n': "N", 'a': "A", 'p': "P", 'l': "L", 'm': "M"}[typ]
 	return fmt.Sprintf("%s%d", prefix, g.nvar)
 }
 
